@@ -340,6 +340,28 @@ C04_DETERMINES_PART = (G, "gosym_part", dict(name="c04_determines", entry="inter
                                desc="one wire-affecting edit (symbolic new primitive / key / enum base / vector length / array dimension, or unnamed fixed-array dimension, field type of an imported record sharing its simple name with a local one, or one of 10 structural edits): "
                                     "schema text differs whenever the edit changes the wire plan, and is identical otherwise"))
 
+# ---- emitted C++ schema tables (protocols.h + protocols.cc read back as one translation unit) --
+C04_CPP_SCHEMAS_PART = (G, "gosym_part", dict(name="c04_cpp_schema_tables", entry="internal/zzverif.C04CppSchemas", args_quick=(2, 4, 3), args_thorough=(3, 5, 4),
+                               extra_thorough=("-max-paths", "400000"),
+                               required_sites=("documented-compatible-changes-accepted", "emitted-unit-understood", "static-initialised-before-use", "version-enum-lists-each-label-once",
+                                               "schema-member-carries-current-schema", "header-schema-is-that-versions-schema", "schema-of-listed-version-accepted",
+                                               "reader-selects-version-of-that-schema", "foreign-schema-refused", "table-index-in-bounds"),
+                               assumptions=["the output of cpp/protocols writeDeclarations + writeDefinitions is read back as one C++ translation unit at token level by "
+                                            "harness/go/internal/zzverif/zz_c04_cppschemas.go (comments, preprocessor lines, (raw) string literals, namespaces, class bodies skipped as declarations, "
+                                            "enum definitions, function definitions, definitions of namespace-scope / static-member objects); any other form fails emitted-unit-understood",
+                                            "C++ semantics transcribed in the harness: objects with static storage duration of one translation unit are zero-initialised, then dynamically initialised in "
+                                            "definition order (a read of a not-yet-initialised object is reported and yields the empty value); unqualified names in the definition of C::m are looked up in C; "
+                                            "switch with fall-through, first true branch of an if / else-if chain, subscript out of range reported",
+                                            "two protocols (P: number, record, optional string; Q: vector of the record); previous versions identical / step of another integer type / record without its "
+                                            "optional field / last step absent (thorough: + second integer type); how the generated binary reader / writer use the two functions "
+                                            "(constructor arguments in cpp/binary) is not part of this part"],
+                               desc="real dsl.Validate + ValidateEvolution on a current model and m previous versions (args: m, kinds, label pool size) whose labels are symbolic strings (pairwise "
+                                    "distinct, out of {v9, v10, a, B}: lexicographic order differs from declaration order) and whose models are per version (symbolic) identical or changed in a "
+                                    "documented compatible way; the emitted enum class Version, schema_, previous_schemas_ (writer and reader copies), SchemaFromVersion and VersionFromSchema are "
+                                    "evaluated with C++ static-initialisation-order semantics: for EVERY enumerator L the schema the writer puts in the header for Version::L is the schema text of "
+                                    "version L's own model (dsl.GetProtocolSchemaString of that version's independently validated model), VersionFromSchema of that text selects a version with "
+                                    "that same schema text, no initialiser reads an object defined later, and texts that are no version's schema (incl. the empty one) are refused"))
+
 # ---- emitted C++ binary protocol methods read back and evaluated (h-cppgen) -------------------
 CPP_PROTO_ASSUME = ["the emitted method bodies are read back into statements (if / switch (version_) with C++ fall-through / element-wise for / simple) by "
                     "harness/go/internal/zzverif/zz_cppstmt.go; any unrecognised form fails the only-known-statement-forms obligation",
@@ -406,8 +428,33 @@ C02_NULLFORM_PART = (G, "gosym_part", dict(name="c02_nullable_union_null_forms",
                                assumptions=["JSON kind table transcribed from docs/reference/ndjson.md (harness specKinds)",
                                             "the null-guard is recognised textually in the emitted from_json body (if (j.is_null()) { value = std::monostate{}; return; } before j.begin())"]))
 
+C05_NESTED_READ = (G, "gosym_part", dict(name="c05_nested_conversion_read", entry="internal/zzverif.C05NestedConversion", args_quick=(0,), args_thorough=(0,), key_fn=c05_nested_key,
+                               required_sites=("nested-integer-change-accepted", "emitted-conversion-understood", "element-wise-data-flow", "one-element-conversion",
+                                               "assigns-static-cast-to-target", "no-silent-wrap", "no-spurious-overflow-error"),
+                               assumptions=C05_ASSUME + ["wrapper chains: none, optional, vector, stream (batched), vector of optional, stream of optional; the emitted statements are read back as a data-flow trace "
+                                                         "(has_value test, resize, element loop, item declaration, guard+throw, static_cast assignment, item store) and compared with the element-wise flow the wrapper chain requires",
+                                                         "not covered: vector of vector / stream of vector (batched), fixed-length vector and optional of vector around a changed element: the emitter "
+                                                         "shadows `i` / `item`, calls resize on std::array / std::optional (reported as suspected C++ well-formedness defects)"],
+                               desc="real compareTypes on wrappers(old int) vs wrappers(new int) for all 72 ordered pairs of integer primitives, then cpp/binary.writeTypeConversion on the resulting change, reading an old stream: "
+                                    "the innermost element conversion reads the element of the source container, throws iff the symbolic 64-bit value does not fit the new element type, else stores static_cast<new> "
+                                    "into the destination container"))
+
+C13_IMPORTED_GENERICS = (G, "gosym_part", dict(name="c13_order_imported_generics", entry="internal/zzverif.C13ImportedGenerics", args_quick=(0, 1), args_thorough=(1, 2),
+                               required_sites=("reordered-accepted", "reordered-does-not-panic", "same-schema", "dependencies-first", "oracle-sees-through-imported-generics",
+                                               "same-field-plan", "same-python-serializer", "same-step-plan"),
+                               assumptions=["model family: harness c13ImportedDefs: imported namespace Lib (Box<T>, Two<A,B>, Many<T> = T*) and 6 local definitions (Inner<T>, Wrapper<T> using "
+                                            "Inner<T>, Seq<T> = T*n, enum Kind, record User, alias Top) where the local generics are mentioned only inside type arguments of the imported "
+                                            "generics (Lib.Box<Wrapper<p>>, Lib.Many<Seq<Kind>>, Lib.Two<string, Lib.Box<Inner<p>>>, Lib.Two<User, Wrapper<Kind>>); quick: all 120 orders of "
+                                            "the 5 non-enum definitions with the enum first or last, type-argument primitive symbolic; thorough: all 720 orders of the 6 definitions, enum base "
+                                            "symbolic too; vector length symbolic; file layout (one / alternating / other file) derived from the order",
+                                            "YAML text -> AST (yaml.v3, participle) is outside: models are built at the level dsl.Validate receives them"],
+                               desc="real dsl.Validate + schema writer + python serializer emitter on local definitions that depend on each other through type arguments of imported generic "
+                                    "types, listed in every order: accepted in every order, identical schema text / plans / serializer expressions, and every local definition listed "
+                                    "after the local definitions it mentions (also inside type arguments of imported generics)"))
+
 PARTS = {
     "C08": [
+        C13_IMPORTED_GENERICS,   # definitions come out dependencies-first (also through type arguments of imported generics): generated Python modules import, C++ declares before use
         (G, "gosym_part", dict(name="c08_python_package", entry="internal/zzverif.C08PythonPackage",
                                required_sites=("generation-does-not-panic", "generation-succeeds", "imported-module-was-generated", "ndjson-written-iff-enabled"),
                                assumptions=["iocommon.CopyEmbeddedStaticFiles replaced by a no-op under gosym (embedded runtime files are not modelled); os.* on the virtual file system",
@@ -458,16 +505,8 @@ PARTS = {
                                desc="same for the write direction (writing a value of the current type to a previous version)")),
         C05_SWITCH_WRITER,
         C05_SWITCH_READER,
-        (G, "gosym_part", dict(name="c05_nested_conversion_read", entry="internal/zzverif.C05NestedConversion", args_quick=(0,), args_thorough=(0,), key_fn=c05_nested_key,
-                               required_sites=("nested-integer-change-accepted", "emitted-conversion-understood", "element-wise-data-flow", "one-element-conversion",
-                                               "assigns-static-cast-to-target", "no-silent-wrap", "no-spurious-overflow-error"),
-                               assumptions=C05_ASSUME + ["wrapper chains: none, optional, vector, stream (batched), vector of optional, stream of optional; the emitted statements are read back as a data-flow trace "
-                                                         "(has_value test, resize, element loop, item declaration, guard+throw, static_cast assignment, item store) and compared with the element-wise flow the wrapper chain requires",
-                                                         "not covered: vector of vector / stream of vector (batched), fixed-length vector and optional of vector around a changed element: the emitter "
-                                                         "shadows `i` / `item`, calls resize on std::array / std::optional (reported as suspected C++ well-formedness defects)"],
-                               desc="real compareTypes on wrappers(old int) vs wrappers(new int) for all 72 ordered pairs of integer primitives, then cpp/binary.writeTypeConversion on the resulting change, reading an old stream: "
-                                    "the innermost element conversion reads the element of the source container, throws iff the symbolic 64-bit value does not fit the new element type, else stores static_cast<new> "
-                                    "into the destination container")),
+        C04_CPP_SCHEMAS_PART,  # a writer targeting a previous version is accepted by that version's reader; a stream of a previous version selects that version's conversions
+        C05_NESTED_READ,
         (G, "gosym_part", dict(name="c05_nested_conversion_write", entry="internal/zzverif.C05NestedConversion", args_quick=(1,), args_thorough=(1,), key_fn=c05_nested_key,
                                required_sites=("element-wise-data-flow", "assigns-static-cast-to-target", "no-silent-wrap", "no-spurious-overflow-error"),
                                assumptions=C05_ASSUME,
@@ -535,18 +574,7 @@ PARTS = {
                                             "YAML text -> AST (yaml.v3, participle) is outside: models are built at the level dsl.Validate receives them"],
                                desc="real dsl.Validate + schema writer + python serializer emitter on the same symbolic definitions listed in a different order / spread over files: "
                                     "both accepted, identical schema text, identical field plans and serializer expressions, and every definition listed after its dependencies")),
-        (G, "gosym_part", dict(name="c13_order_imported_generics", entry="internal/zzverif.C13ImportedGenerics", args_quick=(0, 1), args_thorough=(1, 2),
-                               required_sites=("reordered-accepted", "reordered-does-not-panic", "same-schema", "dependencies-first", "oracle-sees-through-imported-generics",
-                                               "same-field-plan", "same-python-serializer", "same-step-plan"),
-                               assumptions=["model family: harness c13ImportedDefs: imported namespace Lib (Box<T>, Two<A,B>, Many<T> = T*) and 6 local definitions (Inner<T>, Wrapper<T> using "
-                                            "Inner<T>, Seq<T> = T*n, enum Kind, record User, alias Top) where the local generics are mentioned only inside type arguments of the imported "
-                                            "generics (Lib.Box<Wrapper<p>>, Lib.Many<Seq<Kind>>, Lib.Two<string, Lib.Box<Inner<p>>>, Lib.Two<User, Wrapper<Kind>>); quick: all 120 orders of "
-                                            "the 5 non-enum definitions with the enum first or last, type-argument primitive symbolic; thorough: all 720 orders of the 6 definitions, enum base "
-                                            "symbolic too; vector length symbolic; file layout (one / alternating / other file) derived from the order",
-                                            "YAML text -> AST (yaml.v3, participle) is outside: models are built at the level dsl.Validate receives them"],
-                               desc="real dsl.Validate + schema writer + python serializer emitter on local definitions that depend on each other through type arguments of imported generic "
-                                    "types, listed in every order: accepted in every order, identical schema text / plans / serializer expressions, and every local definition listed "
-                                    "after the local definitions it mentions (also inside type arguments of imported generics)")),
+        C13_IMPORTED_GENERICS,
         (G, "gosym_part", dict(name="c13_comments", entry="internal/zzverif.C13Comments", args_quick=(3, 3), args_thorough=(4, 4),
                                required_sites=("doc-comment-is-the-attached-block", "detached-comment-blocks-do-not-change-the-doc-comment", "leading-blank-lines-do-not-change-the-doc-comment"),
                                assumptions=["dsl.normalizeComment applied to yaml.v3's HeadComment is the only way comment text enters the model (yaml.go); yaml.v3 itself is outside",
@@ -567,6 +595,7 @@ PARTS = {
         C14_TRIVIAL_PART,   # the memcpy fast path writes exactly the field-by-field bytes of docs/reference/binary.md (no padding)
         C01_CPP_PROTO_WRITER,
         C01_CPP_PROTO_READER,
+        (CC, "c17_cc_reuse", dict()),   # the value read is the value written, whatever the destination object held before (vectors, maps, blocks)
     ],
     "C03": [
         (PY, "c03_py_capacity", dict()),
@@ -585,10 +614,12 @@ PARTS = {
         (CC, "c17_cc_reuse", dict()),
         (PY, "c17_py_batching", dict()),
         C01_CPP_PROTO_WRITER,   # how a writer's items are batched (incl. empty batches) never shows on the wire except as block boundaries
+        C05_NESTED_READ,   # element-wise conversions of batch reads go through a fresh item and reset their target: no item depends on what the destination held before
     ],
     "C15": [
         C04_EMBED_PART,
         C04_DETERMINES_PART,   # a reader can only refuse a foreign stream if wire-different models have different schema texts
+        C04_CPP_SCHEMAS_PART,  # the generated C++ reader maps exactly the schema texts of the listed versions to a version and refuses every other text (incl. the empty one)
         (CC, "c15_cc_header", dict()),
         (PY, "c15_py_header", dict()),
     ],
@@ -600,6 +631,7 @@ PARTS = {
                                desc="real dsl.Validate + GetProtocolSchemaString on a symbolic model, twice: plain vs decorated with comments on every commentable node, "
                                     "a computed field, unrelated definitions/protocol, reversed definition order, other file and symbolic line offset: schema text identical")),
         C04_DETERMINES_PART,
+        C04_CPP_SCHEMAS_PART,  # every header the generated C++ writer emits carries the schema of the version it is written for
     ],
     "C11": [
         (G, "gosym_part", dict(name="c11_all_or_nothing", entry="internal/cmd.VerifC11", args_quick=(1,), args_thorough=(1,), key_fn=c11_key,
